@@ -532,6 +532,118 @@ func routeName(p string) string {
 	return strings.Trim(r.Replace(p), "_")
 }
 
+// ---- partial transport mapping: services in which some methods have no HTTP mapping at all
+// (reachable in process only), next to mapped ones, for every kind of method. What the generated
+// HTTP packages contain must be decided from the same set of methods everywhere. ----
+
+func partialKinds() []string {
+	return []string{"plain", "payload", "result", "prim_result", "errors", "server_stream", "client_stream", "bidi", "stream_with_payload", "viewed_result", "collection_result", "secured_jwt", "secured_basic", "user_payload"}
+}
+
+// kindMethod builds a method of the given kind; mapped = with an HTTP mapping.
+func kindMethod(idx int, kind string, mapped bool) *dg.Method {
+	m := &dg.Method{Name: fmt.Sprintf("m%d", idx)}
+	msg := dg.Obj(dg.Req("text", dg.Prim("String")), dg.F("n", dg.Prim("Int")))
+	h := &dg.HTTPMap{}
+	verb := "GET"
+	sec := func(fn, n string) *dg.Field {
+		return &dg.Field{Name: n, A: dg.Attr{T: dg.Prim("String"), Sec: &dg.SecAttrKind{Fn: fn}}, Required: true}
+	}
+	switch kind {
+	case "plain":
+	case "payload":
+		m.Payload = pa(dg.A(dg.Obj(dg.F("a", dg.Prim("String")), dg.Req("b", dg.Prim("Int")))))
+		verb = "POST"
+	case "result":
+		m.Result = pa(dg.A(dg.Obj(dg.Req("a", dg.Prim("String")), dg.F("b", dg.Prim("Int")))))
+	case "prim_result":
+		m.Result = pa(dg.A(dg.Prim("String")))
+	case "errors":
+		en := fmt.Sprintf("bad%d", idx)
+		m.Errors = []dg.ErrorDef{{Name: en}, {Name: "not_found"}}
+		h.Errors = []dg.ErrResponse{{Name: en, R: dg.Response{Status: 400}}, {Name: "not_found", R: dg.Response{Status: 404}}}
+	case "server_stream":
+		m.StreamingResult = pa(dg.A(msg))
+	case "client_stream":
+		m.StreamingPayload = pa(dg.A(msg))
+		m.Result = pa(dg.A(dg.Prim("Int")))
+	case "bidi":
+		m.StreamingPayload = pa(dg.A(dg.Prim("String")))
+		m.StreamingResult = pa(dg.A(msg))
+	case "stream_with_payload":
+		m.Payload = pa(dg.A(dg.Obj(dg.F("topic", dg.Prim("String")))))
+		m.StreamingResult = pa(dg.A(dg.Ref("UObj")))
+		h.Params = []dg.MapEntry{{Attr: "topic"}}
+	case "viewed_result":
+		m.Result = pa(dg.A(dg.Ref("RT")))
+	case "collection_result":
+		m.Result = pa(dg.A(dg.Type{Kind: "collection", Ref: "RT"}))
+	case "secured_jwt":
+		m.Security = []dg.Requirement{{Schemes: []string{"jwt_sch"}}}
+		m.Payload = pa(dg.A(dg.Obj(sec("Token", "token"), dg.F("a", dg.Prim("String")))))
+		verb = "POST"
+	case "secured_basic":
+		m.Security = []dg.Requirement{{Schemes: []string{"basic_sch"}}}
+		m.Payload = pa(dg.A(dg.Obj(sec("Username", "user"), sec("Password", "pass"))))
+		verb = "POST"
+	case "user_payload":
+		m.Payload = pa(dg.A(dg.Ref("UObj")))
+		m.Result = pa(dg.A(dg.Ref("UMap")))
+		verb = "POST"
+	}
+	if mapped {
+		h.Routes = []dg.Route{{Verb: verb, Path: fmt.Sprintf("/h%d", idx)}}
+		m.HTTP = h
+	}
+	return m
+}
+
+func hostileService(name string, ms ...*dg.Method) DCase {
+	d := &dg.Design{Name: name, Types: hostilePool(), Schemes: append([]dg.Scheme{}, hostileSchemes...), Services: []*dg.Service{{Name: "svc", Methods: ms}}}
+	return DCase{Stream: "hostile", Name: name, Design: d, NoExample: true}
+}
+
+func partialDesigns(start int) []DCase {
+	var out []DCase
+	idx := start
+	next := func() int { idx += 1; return idx }
+	for _, k := range partialKinds() {
+		// a mapped plain method + an unmapped method of kind k; the reverse; a mapped streaming method + unmapped k
+		out = append(out,
+			hostileService("h_partial_mapped_plain__unmapped_"+k, kindMethod(next(), "result", true), kindMethod(next(), k, false)),
+			hostileService("h_partial_mapped_"+k+"__unmapped_plain", kindMethod(next(), k, true), kindMethod(next(), "plain", false)),
+			hostileService("h_partial_mapped_stream__unmapped_"+k, kindMethod(next(), "server_stream", true), kindMethod(next(), k, false)),
+			hostileService("h_partial_unmapped_"+k+"__mapped_plain", kindMethod(next(), k, false), kindMethod(next(), "result", true)))
+	}
+	// every kind mapped in one service (reference point), every kind unmapped next to one mapped method
+	var all, none []*dg.Method
+	for _, k := range partialKinds() {
+		all = append(all, kindMethod(next(), k, true))
+		none = append(none, kindMethod(next(), k, false))
+	}
+	out = append(out, hostileService("h_partial_all_kinds_mapped", all...))
+	out = append(out, hostileService("h_partial_all_kinds_unmapped_but_one", append(none, kindMethod(next(), "result", true))...))
+	// a service without any HTTP mapping next to a mapped service; and alone in the design
+	{
+		var un []*dg.Method
+		for _, k := range partialKinds() {
+			un = append(un, kindMethod(next(), k, false))
+		}
+		c := hostileService("h_partial_unmapped_service_next_to_mapped", kindMethod(next(), "result", true))
+		c.Design.Services = append(c.Design.Services, &dg.Service{Name: "inproc", Methods: un})
+		c.NoPack = true
+		out = append(out, c)
+		var un2 []*dg.Method
+		for _, k := range partialKinds() {
+			un2 = append(un2, kindMethod(next(), k, false))
+		}
+		c2 := hostileService("h_partial_no_http_at_all", un2...)
+		c2.NoPack = true
+		out = append(out, c2)
+	}
+	return out
+}
+
 func hostileSingle(name string, m *dg.Method) DCase {
 	d := &dg.Design{Name: name, Types: hostilePool(), Schemes: append([]dg.Scheme{}, hostileSchemes...), Services: []*dg.Service{{Name: "svc", Methods: []*dg.Method{m}}}}
 	return DCase{Stream: "hostile", Name: name, Design: d, NoExample: true}
@@ -642,6 +754,8 @@ func hostileDesigns() []DCase {
 			idx++
 		}
 	}
+	pd := partialDesigns(idx + 5000)
+	out = append(out, pd...)
 	ms, names := credentialMethods(idx)
 	for i, m := range ms {
 		out = append(out, hostileSingle("h_"+names[i], m))
@@ -664,7 +778,9 @@ func packHostile(singles []DCase, size int) []DCase {
 		var names []string
 		for k, c := range singles[lo:hi] {
 			src := c.Design.Services[0]
-			svcs = append(svcs, &dg.Service{Name: fmt.Sprintf("svc%d", k), BasePath: src.BasePath, Methods: src.Methods})
+			cp := *src
+			cp.Name = fmt.Sprintf("svc%d", k)
+			svcs = append(svcs, &cp)
 			names = append(names, strings.TrimPrefix(c.Name, "h_"))
 		}
 		d := &dg.Design{Name: fmt.Sprintf("hpack%d", len(out)), Types: hostilePool(), Schemes: append([]dg.Scheme{}, hostileSchemes...), Services: svcs}
